@@ -385,5 +385,62 @@ def r8_memo(chk: Check) -> None:
                          "MEMO-KEY(anchor modules of this property): the command is built from the request that was really sent: a cache keyed by less hands out another request's command", floor=0)
 
 
+def r9_probe_cases_own_their_containers(chk: Check) -> None:
+    chk.rule("C09.R9", "FRESH(containers of a derived probe case): remove_auth builds the case the ignored_auth check then WRITES credentials into (_set_auth_for_case stores `container[name] = ...` in place); the reproduction command of the original case is rebuilt from the original case's headers / query / cookies, so each of those containers handed to the new Case is, on every path (reaching definitions over the CFG), a copy or None - never the original case's own dict", floor=3)
+    from ..dataflow import propagate
+
+    P = chk.project
+    fn = P.func("specs/openapi/checks.py:remove_auth")
+    src = params_of(fn.node)[0]
+    ctor = [c for r in simple_return_expr(fn) for c in [r] if isinstance(c, ast.Call) and last_attr(c) == "Case"]
+    if not ctor:
+        chk.undecided("C09.R9", fn, "remove_auth returns a new Case(...)", "constructor call not found", fn.loc())
+        return
+    g = cfg_of(fn)
+
+    def classify(v: ast.expr) -> str:
+        return _freshness(v, src)
+
+    for key in ("headers", "query", "cookies"):
+        v = kwarg(ctor[0], key)
+        construct = f"Case({key}=...) does not share the original case's dict"
+        if v is None:
+            chk.undecided("C09.R9", fn, construct, "container not passed by keyword", fn.loc(ctor[0]))
+            continue
+        if isinstance(v, ast.Name):
+            states = propagate(g, v.id, [g.entry], ["fresh"], classify)
+            kinds: set[str] = set()
+            for nid in g.stmt_nodes_containing(ctor[0]):
+                kinds |= states.get(nid, set())
+        else:
+            kinds = {classify(v)}
+        if "shared" in kinds:
+            chk.violation("C09.R9", fn, construct, f"on some path `{unparse(v, 40)}` is `{src}.{key}` itself: _set_auth_for_case then writes the invalid credential into the ORIGINAL case, and a reproduction command generated afterwards carries a parameter that was never sent", fn.loc(ctor[0]))
+        elif kinds <= {"fresh"}:
+            chk.ok("C09.R9", fn, construct, "copy or None on every path", fn.loc(ctor[0]))
+        else:
+            chk.undecided("C09.R9", fn, construct, f"definitions not classified: {sorted(kinds)}", fn.loc(ctor[0]))
+
+
+def _freshness(v: ast.AST | None, src: str) -> str:
+    if v is None:
+        return "unknown"
+    if isinstance(v, ast.Constant) and v.value is None:
+        return "fresh"
+    if isinstance(v, (ast.Dict, ast.DictComp, ast.List, ast.ListComp)):
+        return "fresh"
+    if isinstance(v, ast.Call) and (last_attr(v) in ("copy", "deepcopy", "deepclone", "dict", "CaseInsensitiveDict", "list")):
+        return "fresh"
+    if isinstance(v, ast.IfExp):
+        kinds = {_freshness(v.body, src), _freshness(v.orelse, src)}
+        return "shared" if "shared" in kinds else ("fresh" if kinds == {"fresh"} else "unknown")
+    if isinstance(v, ast.BoolOp):
+        kinds = {_freshness(o, src) for o in v.values}
+        return "shared" if "shared" in kinds else ("fresh" if kinds == {"fresh"} else "unknown")
+    if isinstance(v, ast.Attribute) and isinstance(v.value, ast.Name) and v.value.id == src:
+        return "shared"
+    return "unknown"
+
+
 def rules(tier: str) -> list:  # type: ignore[type-arg]
-    return [r1_shell_quoting, r2_real_headers, r3_filter_headers, r5_curl_argument_semantics, r6_command_verbatim, r7_real_headers_merged_in_full, r8_memo]
+    return [r1_shell_quoting, r2_real_headers, r3_filter_headers, r5_curl_argument_semantics, r6_command_verbatim, r7_real_headers_merged_in_full, r8_memo, r9_probe_cases_own_their_containers]
